@@ -236,6 +236,9 @@ func (s *seqCounters) add(seqNr uint32) {
 		if s._nrCounters == s.windowSize {
 			nrToDrop++
 		}
+		if nrToDrop > s._nrCounters {
+			nrToDrop = s._nrCounters
+		}
 		if nrToDrop > 0 {
 			copy(s.counters, s.counters[nrToDrop:])
 			s._nrCounters -= nrToDrop
